@@ -66,6 +66,10 @@ type SPkg struct {
 	OnlyArch []string `json:"only_arch,omitempty"`
 	// the .apk starts with a signature member (apko keeps it as the package's signature section; it is not verified)
 	Signed bool `json:"signed,omitempty"`
+	// the datahash line of .PKGINFO, verbatim, instead of the hex digest of the data section (C18: a string, not a digest)
+	DataHashOverride *string `json:"datahash_override,omitempty"`
+	// the arch line of .PKGINFO / the A: line of the index, verbatim (C18)
+	ArchOverride string `json:"arch_override,omitempty"`
 }
 
 type builtApk struct {
@@ -128,7 +132,11 @@ func pkginfo(p SPkg, arch string, size int64, dataHash []byte) string {
 	w := func(k, v string) { fmt.Fprintf(&b, "%s = %s\n", k, v) }
 	w("pkgname", p.Name)
 	w("pkgver", p.Version)
-	w("arch", arch)
+	if p.ArchOverride != "" {
+		w("arch", p.ArchOverride)
+	} else {
+		w("arch", arch)
+	}
 	w("size", fmt.Sprint(size))
 	if p.Origin != "" {
 		w("origin", p.Origin)
@@ -153,7 +161,11 @@ func pkginfo(p SPkg, arch string, size int64, dataHash []byte) string {
 	if p.Priority != 0 {
 		w("provider_priority", fmt.Sprint(p.Priority))
 	}
-	w("datahash", hex.EncodeToString(dataHash))
+	if p.DataHashOverride != nil {
+		w("datahash", *p.DataHashOverride)
+	} else {
+		w("datahash", hex.EncodeToString(dataHash))
+	}
 	return b.String()
 }
 
